@@ -5,3 +5,6 @@ open IrVerif.Path
 #print axioms C10_read_safe
 #print axioms C10_all_entry_points
 #print axioms C10_load_base_nonempty
+#print axioms C10_load_base_is_model_dir
+#print axioms C10_load_read_safe
+#print axioms C10_open_safe
